@@ -221,7 +221,8 @@ SAN_FLAGS = ["-fsanitize=address,undefined", "-fno-sanitize-recover=all",
 
 
 def build_harness(pid, name, harness_srcs, repo_srcs="ALL", cflags=(), ldflags=(),
-                  sanitize=True, opt="-O1", exclude=(), per_file_flags=None, cc="clang-14"):
+                  sanitize=True, opt="-O1", exclude=(), per_file_flags=None, cc="clang-14",
+                  harness_flags=None):
     """Compile harness sources (relative to /verif) together with sources of the
     repo's current working tree (relative to /repo, or "ALL"). Object files are
     cached by content hash of (source, all headers, flags), so an unchanged tree
@@ -244,6 +245,8 @@ def build_harness(pid, name, harness_srcs, repo_srcs="ALL", cflags=(), ldflags=(
         flags = list(base)
         if per_file_flags and kind == "r":
             flags += per_file_flags(rel)
+        if harness_flags and kind == "h":
+            flags += harness_flags(rel)
         # harness sources may include other harness files: hash the whole harness dir
         extra = [hdr_hash, flags]
         deps = [src]
@@ -283,6 +286,27 @@ def build_harness(pid, name, harness_srcs, repo_srcs="ALL", cflags=(), ldflags=(
             if p not in keep and os.path.isfile(p):
                 os.unlink(p)
     return exe
+
+
+# every access is a callback, also a read that is followed by a write of the same location
+TSAN_FLAGS = ["-fsanitize=thread", "-mllvm", "-tsan-instrument-read-before-write=1"]
+
+VS_WRAP = ["syscall", "pthread_mutex_lock", "pthread_mutex_unlock", "pthread_mutex_trylock",
+           "pthread_cond_wait", "pthread_cond_timedwait", "pthread_cond_signal",
+           "pthread_cond_broadcast", "sched_yield"]
+
+
+def build_conc_harness(pid, name, harness_srcs, repo_srcs, cflags=(), extra_wrap=()):
+    """Harness for concurrent code (tie C): repo sources and the harness sources are
+    compiled with -O0 -fsanitize=thread and linked against harness/tsanshim/vsched.c
+    (our implementation of the __tsan_* ABI + deterministic scheduler) instead of
+    libtsan; blocking primitives are redirected with -Wl,--wrap."""
+    shim = "harness/tsanshim/vsched.c"
+    return build_harness(
+        pid, name, list(harness_srcs) + [shim], repo_srcs, cflags=cflags, sanitize=False, opt="-O0",
+        per_file_flags=lambda rel: TSAN_FLAGS,
+        harness_flags=lambda rel: [] if rel.endswith("vsched.c") else TSAN_FLAGS,
+        ldflags=["-Wl," + ",".join("--wrap=" + w for w in list(VS_WRAP) + list(extra_wrap))])
 
 
 # --------------------------------------------------------------------------
@@ -772,3 +796,142 @@ def replay_file(ctx, path, harness_cmd, driver_cmd, env=None, judge=None):
         return 1
     print("replay passes on the current tree")
     return 0
+
+
+# --------------------------------------------------------------------------
+# Concurrent correspondence (tie C): same schedule on real code and on the model
+# --------------------------------------------------------------------------
+
+def _strip_info(lines):
+    return [l for l in lines if not l.startswith("#")]
+
+
+def conc_correspondence(ctx, harness_cmd, driver_cmd, runs, judge=None, label="tieC",
+                        timeout=600, max_reports=3, signature_of=None, env=None):
+    """runs: list of dicts {"conf": [lines], "sched": "random 5" | "pct 5 2" | "replay ..."}.
+    Phase 1 runs the implementation under the deterministic scheduler; phase 2 replays
+    the schedule it chose on the Lean model; the two outputs (schedule, every trace
+    event, end status, outcome lines) must be identical. `judge(run, impl_lines)` is the
+    property-level oracle on the implementation's own trace (returns text when the
+    property is violated)."""
+    cases = [r["conf"] + ["sched " + r["sched"], "run"] for r in runs]
+    impl = run_cases(harness_cmd, cases, timeout=timeout, env=env)
+    mcases = []
+    for r, a in zip(runs, impl):
+        sched = ""
+        for l in a["out"]:
+            if l.startswith("schedule "):
+                sched = l[len("schedule "):]
+        mcases.append(r["conf"] + ["sched replay " + sched, "run"])
+    model = run_cases(driver_cmd, mcases, timeout=timeout)
+    ndiff = 0
+    bad_prop, bad_model = [], []
+    steps_total = 0
+    statuses = {}
+    for i, (a, b) in enumerate(zip(impl, model)):
+        ao, bo = _strip_info(a["out"]), _strip_info(b["out"])
+        for l in ao:
+            if l.startswith("end "):
+                st = l.split()[1]
+                statuses[st] = statuses.get(st, 0) + 1
+                try:
+                    steps_total += int(l.split("steps=")[1])
+                except (IndexError, ValueError):
+                    pass
+        msg = None
+        if a["crash"]:
+            msg = "crash: " + a["crash"][:1500]
+        elif judge is not None:
+            msg = judge(runs[i], a["out"])
+        if msg:
+            bad_prop.append((i, msg))
+        if b["crash"] or ao != bo:
+            j = next((k for k in range(max(len(ao), len(bo)))
+                      if (ao[k] if k < len(ao) else None) != (bo[k] if k < len(bo) else None)), 0)
+            bad_model.append((i, j, ao[j] if j < len(ao) else "<missing>",
+                              bo[j] if j < len(bo) else "<missing>"))
+    seen = set()
+    for a in impl:
+        seen.add(tuple(a["out"]))
+    ctx.cov["evaluations"] += len(runs)
+    ctx.cov["distinct_nontrivial"] += len(seen)
+    ctx.cov["ties"][label] = {"runs": len(runs), "distinct_traces": len(seen), "steps_total": steps_total,
+                              "end_status": statuses, "differ_model": len(bad_model),
+                              "property_failures": len(bad_prop)}
+    ctx.cov["traces_validated_against_impl"] = ctx.cov.get("traces_validated_against_impl", 0) + \
+        len(runs) - len(bad_model)
+    if runs:
+        ctx.add_samples([{"conf": runs[0]["conf"], "trace": impl[0]["out"][:25]}])
+    reported = 0
+    sigs = set()
+    for i, msg in bad_prop:
+        if reported >= max_reports:
+            break
+        a = impl[i]
+        sched = next((l[len("schedule "):] for l in a["out"] if l.startswith("schedule ")), "")
+        sig = signature_of(runs[i], a["out"], msg) if signature_of else None
+        if sig is not None and sig in sigs:
+            continue
+        sigs.add(sig)
+        p = ctx.violation({"kind": "property-fails-on-implementation", "tie": label,
+                           "conf": runs[i]["conf"], "schedule": sched, "what": msg,
+                           "ops": runs[i]["conf"] + ["sched replay " + sched, "run"],
+                           "implementation_trace": a["out"], "impl_crash": a["crash"],
+                           "model_trace": model[i]["out"], "broken_obligations": ctx.broken},
+                          found_input=True, signature=sig)
+        if p:
+            reported += 1
+    only_model = [d for d in bad_model if d[0] not in {i for i, _ in bad_prop}]
+    if only_model:
+        i, j, x, y = only_model[0]
+        ctx.broken.append("%s: model and implementation traces differ on %d run(s)" % (label, len(only_model)))
+        ctx.model_diff = {"ops": mcases[i], "line": j, "implementation": x, "model": y,
+                          "implementation_trace": impl[i]["out"][:80], "model_trace": model[i]["out"][:80]}
+        ctx.cov["ties"][label]["first_model_difference"] = {"ops": mcases[i], "line": j,
+                                                            "implementation": x, "model": y}
+    return len(bad_prop) + len(only_model)
+
+
+def atomic_sites(repo_rel, function=None):
+    """Static inventory (tie A) of the __atomic builtins in a source file of /repo, after
+    preprocessing: list of (builtin, [args]) in source order, optionally restricted to the
+    body of one function. Used for what a dynamic trace cannot show (weak vs strong CAS)."""
+    inc = gen_config_header()
+    r = sh(["clang-14", "-E", "-P", "-std=gnu11", "-D_GNU_SOURCE", "-I" + REPO, "-I" + inc,
+            os.path.join(REPO, repo_rel)])
+    if r.returncode != 0:
+        raise BuildError("preprocess failed: " + repo_rel + "\n" + r.stdout[-2000:])
+    txt = r.stdout
+    if function:
+        m = re.search(r"\b%s\s*\([^;{]*\)\s*\{" % re.escape(function), txt)
+        if not m:
+            return None
+        i = m.end()
+        depth = 1
+        j = i
+        while j < len(txt) and depth:
+            depth += {"{": 1, "}": -1}.get(txt[j], 0)
+            j += 1
+        txt = txt[i:j]
+    sites = []
+    for m in re.finditer(r"\b(__atomic_\w+|__sync_\w+)\s*\(", txt):
+        i = m.end()
+        depth = 1
+        args, cur = [], ""
+        while i < len(txt) and depth:
+            c = txt[i]
+            if c == "(":
+                depth += 1
+            elif c == ")":
+                depth -= 1
+                if depth == 0:
+                    break
+            if c == "," and depth == 1:
+                args.append(cur.strip())
+                cur = ""
+            else:
+                cur += c
+            i += 1
+        args.append(cur.strip())
+        sites.append((m.group(1), args))
+    return sites
